@@ -72,7 +72,7 @@ def train_peptide(c, tag, vocab="v_ok"):
                       output_length_mean=c.real(f"{tag}_len", 4, 0, 64), output_length_std=1.0,
                       response_time_mean=c.real(f"{tag}_rt", 4, 0, 64), response_time_std=0.5,
                       vocabulary_hash=vocab, structure_hash="s_ok",
-                      confidence_mean=c.real(f"{tag}_conf", 20, 0, 1), confidence_std=0.25,
+                      confidence_mean=c.real(f"{tag}_conf", 20, -2, 4), confidence_std=0.25,     # any scale training accepts, not only [0, 1]
                       error_rate=c.real(f"{tag}_err", 20, 0, 1), error_types=(), canary_accuracy=canary)
 
 
